@@ -473,90 +473,43 @@ func runOpts1(m *Model, r *RuleResult) {
 		}
 		ctl := m.FuncIsPosctl(f)
 		key := "option:" + funcKey(f)
-		// the returned closure
-		var cl *ssa.Function
-		eachInstr(f, func(in ssa.Instruction) {
-			if ret, ok := in.(*ssa.Return); ok && len(ret.Results) == 1 {
-				v := ret.Results[0]
-				if ct, ok := v.(*ssa.ChangeType); ok {
-					v = ct.X
-				}
-				switch x := v.(type) {
-				case *ssa.MakeClosure:
-					cl, _ = x.Fn.(*ssa.Function)
-				case *ssa.Function:
-					cl = x
-				}
-			}
-		})
-		if cl == nil {
-			r.add(Obligation{Key: key, Pos: m.Pos(f.Pos()), Desc: "option constructor", Verdict: "undecided", Detail: "the result is not a function literal", Control: ctl})
+		// what the Option value does to the record it is applied to: evaluated abstractly, through combinators of the package
+		// (`withParams(func(p *Params) { p.X = x })`, `assign(func(o *options) *T { return &o.f }, v)`) as well
+		ev := &optsEval{m: m, ctor: f}
+		var args []optVal
+		for _, p := range f.Params {
+			args = append(args, optVal{kind: "arg", param: p})
+		}
+		opt := ev.exec(optVal{kind: "func", fn: f}, args, false, 0)
+		if opt.kind != "func" {
+			r.add(Obligation{Key: key, Pos: m.Pos(f.Pos()), Desc: "option constructor", Verdict: "undecided", Detail: "the result is not a function literal (nor a combinator of the package applied to function literals)", Control: ctl})
 			continue
 		}
+		ev.stores = nil
+		ev.exec(opt, []optVal{{kind: "record"}}, false, 0)
 		var bad []string
 		n := 0
-		eachInstr(cl, func(in ssa.Instruction) {
-			st, ok := in.(*ssa.Store)
-			if !ok {
-				return
-			}
-			fa, ok := st.Addr.(*ssa.FieldAddr)
-			if !ok {
-				return
-			}
-			_, steps := fieldChain(fa)
-			loc := locOfSteps(steps)
-			if !strings.HasPrefix(loc, "autog.options.") && !strings.HasPrefix(loc, igPar+".") {
-				return
+		for _, st := range ev.stores {
+			if !strings.HasPrefix(st.loc, "autog.options.") && !strings.HasPrefix(st.loc, igPar+".") {
+				continue
 			}
 			n++
-			if deps := transitiveControlDeps(st.Block()); len(deps) > 0 {
-				bad = append(bad, fmt.Sprintf("the store into %s at %s happens only under %s: a legal value is silently replaced by the default", strings.TrimPrefix(loc, "autog.options."), m.Pos(st.Pos()), deps[0].If.Cond.String()))
+			if st.cond != "" {
+				bad = append(bad, fmt.Sprintf("the store into %s at %s happens only under %s: a legal value is silently replaced by the default", strings.TrimPrefix(st.loc, "autog.options."), m.Pos(st.pos), st.cond))
 			}
-			v := st.Val
-			if ct, ok := v.(*ssa.ChangeType); ok {
-				v = ct.X
-			}
-			switch x := v.(type) {
-			case *ssa.Const, *ssa.MakeClosure, *ssa.Function:
-			case *ssa.FreeVar:
-			case *ssa.UnOp:
-				if _, isFV := x.X.(*ssa.FreeVar); !isFV || x.Op != token.MUL {
-					bad = append(bad, "the value stored into "+loc+" at "+m.Pos(st.Pos())+" is not the constructor's argument")
+			switch st.val.kind {
+			case "arg", "func":
+			case "const":
+				// a constructor that takes arguments sets fields from them and from nothing else: a constant stored on the side
+				// (say, the layering algorithm inside the thoroughness option) silently overrides another option of the same call
+				if len(f.Params) > 0 {
+					bad = append(bad, "besides its own argument the option sets "+strings.TrimPrefix(st.loc, "autog.options.")+" to a constant at "+m.Pos(st.pos)+" (another option of the same call is silently overridden)")
 				}
 			default:
-				bad = append(bad, "the value stored into "+loc+" at "+m.Pos(st.Pos())+" is computed ("+v.String()+"), not the constructor's argument")
+				bad = append(bad, "the value stored into "+st.loc+" at "+m.Pos(st.pos)+" is computed ("+st.val.desc+"), not the constructor's argument")
 			}
-		})
-		// a constructor that takes arguments sets fields from them and from nothing else: a constant stored on the side
-		// (say, the layering algorithm inside the thoroughness option) silently overrides another option of the same call
-		if len(f.Params) > 0 {
-			eachInstr(cl, func(in ssa.Instruction) {
-				st, ok := in.(*ssa.Store)
-				if !ok {
-					return
-				}
-				fa, ok := st.Addr.(*ssa.FieldAddr)
-				if !ok {
-					return
-				}
-				_, steps := fieldChain(fa)
-				loc := locOfSteps(steps)
-				if !strings.HasPrefix(loc, "autog.options.") && !strings.HasPrefix(loc, igPar+".") {
-					return
-				}
-				v := st.Val
-				if ct, ok := v.(*ssa.ChangeType); ok {
-					v = ct.X
-				}
-				if mi, ok := v.(*ssa.MakeInterface); ok {
-					v = mi.X
-				}
-				if _, isConst := v.(*ssa.Const); isConst {
-					bad = append(bad, "besides its own argument the option sets "+strings.TrimPrefix(loc, "autog.options.")+" to a constant at "+m.Pos(st.Pos())+" (another option of the same call is silently overridden)")
-				}
-			})
 		}
+		bad = append(bad, ev.undec...)
 		// no state captured by the option (or by the functions it installs) is written: an Option value may be reused for
 		// several Layout calls, and concurrent calls may share it
 		var family []*ssa.Function
@@ -615,6 +568,234 @@ func runOpts1(m *Model, r *RuleResult) {
 			r.add(Obligation{Key: key, Pos: m.Pos(f.Pos()), Desc: fmt.Sprintf("stores its argument (or a constant / function literal) into the record unconditionally (%d store(s))", n), Verdict: "holds", Control: ctl})
 		}
 	}
+}
+
+// optsEval: a small abstract interpreter for option constructors. Values are classified as the exported constructor's own
+// argument, a constant, a function value (with the bindings of its free variables), a pointer into the options / parameter
+// record, or computed.
+type optVal struct {
+	kind  string // arg | const | func | record | computed | none
+	param *ssa.Parameter
+	fn    *ssa.Function
+	fv    map[*ssa.FreeVar]optVal
+	desc  string
+}
+
+type optStoreEv struct {
+	loc  string
+	pos  token.Pos
+	cond string
+	val  optVal
+}
+
+type optsEval struct {
+	m      *Model
+	ctor   *ssa.Function
+	stores []optStoreEv
+	undec  []string
+}
+
+// exec applies a function value to arguments and returns the class of its result; stores into the record are collected.
+func (ev *optsEval) exec(fv optVal, args []optVal, cond bool, depth int) optVal {
+	if fv.kind != "func" || fv.fn == nil || len(fv.fn.Blocks) == 0 || depth > 5 {
+		return optVal{kind: "computed", desc: "call of an unknown function"}
+	}
+	fn := fv.fn
+	vals := map[ssa.Value]optVal{}
+	for i, p := range fn.Params {
+		if i < len(args) {
+			vals[p] = args[i]
+		}
+	}
+	var root func(v ssa.Value, d int) optVal
+	root = func(v ssa.Value, d int) optVal {
+		if r, ok := vals[v]; ok {
+			return r
+		}
+		if d > 8 {
+			return optVal{kind: "computed", desc: v.String()}
+		}
+		switch x := v.(type) {
+		case *ssa.Const:
+			return optVal{kind: "const"}
+		case *ssa.Function:
+			return optVal{kind: "func", fn: x}
+		case *ssa.MakeClosure:
+			cl, _ := x.Fn.(*ssa.Function)
+			b := map[*ssa.FreeVar]optVal{}
+			for i, bv := range x.Bindings {
+				if cl != nil && i < len(cl.FreeVars) {
+					b[cl.FreeVars[i]] = root(bv, d+1)
+				}
+			}
+			return optVal{kind: "func", fn: cl, fv: b}
+		case *ssa.FreeVar:
+			if r, ok := fv.fv[x]; ok {
+				return r
+			}
+		case *ssa.ChangeType:
+			return root(x.X, d+1)
+		case *ssa.MakeInterface:
+			return root(x.X, d+1)
+		case *ssa.Convert:
+			r := root(x.X, d+1)
+			if r.kind == "arg" || r.kind == "const" {
+				return r
+			}
+		case *ssa.FieldAddr:
+			if r := root(x.X, d+1); r.kind == "record" {
+				return r
+			}
+		case *ssa.Alloc:
+			// a parameter spilled into a cell because closures capture it: the cell holds what is stored into it
+			var only *ssa.Store
+			cnt := 0
+			if x.Referrers() != nil {
+				for _, ref := range *x.Referrers() {
+					if st, ok := ref.(*ssa.Store); ok && st.Addr == ssa.Value(x) {
+						only = st
+						cnt++
+					}
+				}
+			}
+			if cnt == 1 {
+				return root(only.Val, d+1)
+			}
+		case *ssa.Call:
+			// a helper of the package that builds a function value (`sizeFromMap(sizes)` returning the size closure)
+			if sc := x.Call.StaticCallee(); sc != nil && pkgPathOf(sc) == pkgPathOf(ev.ctor) && depth < 4 {
+				var as []optVal
+				for _, a := range x.Call.Args {
+					as = append(as, root(a, d+1))
+				}
+				if r := ev.exec(optVal{kind: "func", fn: sc}, as, cond, depth+1); r.kind == "func" {
+					vals[v] = r
+					return r
+				}
+			}
+		case *ssa.UnOp:
+			if x.Op == token.MUL {
+				// load of a captured cell (free variable by reference) or of a spilled parameter
+				if r := root(x.X, d+1); r.kind == "arg" || r.kind == "const" || r.kind == "func" {
+					return r
+				}
+			}
+		}
+		return optVal{kind: "computed", desc: v.String()}
+	}
+	ret := optVal{kind: "none"}
+	for _, b := range fn.Blocks {
+		c := cond
+		condDesc := ""
+		if deps := transitiveControlDeps(b); len(deps) > 0 {
+			c = true
+			condDesc = deps[0].If.Cond.String()
+		}
+		for _, in := range b.Instrs {
+			switch x := in.(type) {
+			case *ssa.Store:
+				if root(x.Addr, 0).kind != "record" {
+					continue
+				}
+				loc := ""
+				if fa, ok := x.Addr.(*ssa.FieldAddr); ok {
+					_, steps := fieldChain(fa)
+					loc = locOfSteps(steps)
+				} else if call, ok := x.Addr.(*ssa.Call); ok {
+					loc = "autog.options.<" + call.Call.Value.Name() + ">"
+					if l, ok := vals[x.Addr]; ok && l.desc != "" {
+						loc = l.desc
+					}
+				}
+				cd := ""
+				if c {
+					cd = condDesc
+					if cd == "" {
+						cd = "a condition of the enclosing combinator"
+					}
+				}
+				ev.stores = append(ev.stores, optStoreEv{loc: loc, pos: x.Pos(), cond: cd, val: root(x.Val, 0)})
+			case ssa.CallInstruction:
+				cc := x.Common()
+				if cc.IsInvoke() {
+					continue
+				}
+				if _, isB := cc.Value.(*ssa.Builtin); isB {
+					continue
+				}
+				var callee optVal
+				if sc := cc.StaticCallee(); sc != nil {
+					if pkgPathOf(sc) != pkgPathOf(ev.ctor) {
+						continue
+					}
+					callee = root(cc.Value, 0)
+					if callee.kind != "func" {
+						callee = optVal{kind: "func", fn: sc}
+					}
+				} else {
+					callee = root(cc.Value, 0)
+				}
+				var as []optVal
+				touches := false
+				for _, a := range cc.Args {
+					ra := root(a, 0)
+					as = append(as, ra)
+					if ra.kind == "record" || ra.kind == "func" {
+						touches = true
+					}
+				}
+				if callee.kind != "func" {
+					if touches {
+						for _, ra := range as {
+							if ra.kind == "record" {
+								ev.undec = append(ev.undec, "the record is handed to a function that cannot be resolved at "+ev.m.Pos(in.Pos()))
+							}
+						}
+					}
+					continue
+				}
+				// only follow calls that can reach the record or build the option
+				if !touches && fn != ev.ctor {
+					continue
+				}
+				res := ev.exec(callee, as, c, depth+1)
+				if v, ok := in.(ssa.Value); ok {
+					if res.kind == "record" {
+						// a pointer into the record returned by a selector function: remember which field
+						res.desc = recordFieldReturned(callee.fn)
+					}
+					vals[v] = res
+				}
+			case *ssa.Return:
+				if len(x.Results) == 1 {
+					r := root(x.Results[0], 0)
+					if ret.kind == "none" {
+						ret = r
+					} else if ret.kind != r.kind || ret.fn != r.fn || ret.param != r.param {
+						ret = optVal{kind: "computed", desc: "different results on different paths"}
+					}
+				}
+			}
+		}
+	}
+	return ret
+}
+
+// recordFieldReturned: the field whose address a selector function `func(o *options) *T { return &o.f }` returns
+func recordFieldReturned(f *ssa.Function) string {
+	loc := ""
+	if f == nil {
+		return loc
+	}
+	eachInstr(f, func(in ssa.Instruction) {
+		if ret, ok := in.(*ssa.Return); ok && len(ret.Results) == 1 {
+			if fa, ok := ret.Results[0].(*ssa.FieldAddr); ok {
+				_, steps := fieldChain(fa)
+				loc = locOfSteps(steps)
+			}
+		}
+	})
+	return loc
 }
 
 // ---------- DISP-1 ----------
